@@ -194,6 +194,7 @@ func (b *bitstream) Next() error {
 
 	// Structs with a length code of 1 are a special case. Their length is always encoded
 	// as a VarUInt and their field names appear in ascending symbol ID order.
+	lengthRead := false
 	if code == bitcodeStruct && length == 1 {
 		length, _, err = b.readVarUintLen(b.remaining())
 		if err != nil {
@@ -203,6 +204,8 @@ func (b *bitstream) Next() error {
 			// Ordered structs must have at least one symbol/value pair.
 			return &SyntaxError{"ordered structs cannot be empty", b.pos - 1}
 		}
+		// The length is now the real one: 14 and 15 no longer mean "VarUInt follows" and "null".
+		lengthRead = true
 	}
 
 	if code == bitcodeNone {
@@ -242,7 +245,7 @@ func (b *bitstream) Next() error {
 		}
 	}
 
-	if length == 0x0F {
+	if length == 0x0F && !lengthRead {
 		// This value is actually a null.
 		b.code = code
 		b.null = true
@@ -253,7 +256,7 @@ func (b *bitstream) Next() error {
 	rem := b.remaining()
 
 	// This value's actual length is encoded as a separate varUint.
-	if length == 0x0E {
+	if length == 0x0E && !lengthRead {
 		var lenghtOfRemaining uint64
 		length, lenghtOfRemaining, err = b.readVarUintLen(rem)
 		if err != nil {
